@@ -54,6 +54,11 @@ class QueryBase[T](ABC):
     def _common_conditions(self):
         """Add conditions common to all queries."""
 
+        # Start afresh each time the SQL is built: a query object can be
+        # executed more than once.
+        self._conditions = []
+        self._params = []
+
         if self.filter is not None:
             # Handle all filter conditions in one go here. The filter
             # conditions are on the flights table, which we alias as 'f' in the
